@@ -70,10 +70,12 @@ FLOATS = {'float': FloatT('float', 24, 'float'), 'double': FloatT('double', 53, 
 # short aliases used in specs: i8 u8 ... i128 u128
 ALIAS = {'i8': 'signed char', 'u8': 'unsigned char', 'i16': 'short', 'u16': 'unsigned short',
          'i32': 'int', 'u32': 'unsigned int', 'i64': 'long', 'u64': 'unsigned long',
-         'i128': '__int128', 'u128': 'unsigned __int128', 'f32': 'float', 'f64': 'double'}
+         'i128': '__int128', 'u128': 'unsigned __int128', 'f32': 'float', 'f64': 'double',
+         'i64l': 'long long', 'u64l': 'unsigned long long'}
 CXX_NAME = {'i8': 'std::int8_t', 'u8': 'std::uint8_t', 'i16': 'std::int16_t', 'u16': 'std::uint16_t',
             'i32': 'std::int32_t', 'u32': 'std::uint32_t', 'i64': 'std::int64_t', 'u64': 'std::uint64_t',
-            'i128': '__int128', 'u128': 'unsigned __int128', 'f32': 'float', 'f64': 'double'}
+            'i128': '__int128', 'u128': 'unsigned __int128', 'f32': 'float', 'f64': 'double',
+            'i64l': 'long long', 'u64l': 'unsigned long long'}
 
 
 def ty(name):
